@@ -807,6 +807,7 @@ func (h *H) ReadStream(b *BatchRec) {
 // recording adapter (persistent / distributed, plain / priority)
 
 type adItem struct {
+	raw  any // a stored entry that is not a []byte (foreign content)
 	data []byte
 	prio int
 	seq  int
@@ -919,7 +920,22 @@ func (a *Adapter) DequeueWithAckId() (any, bool, string) {
 	a.unacked[id] = it
 	a.ackOrder = append(a.ackOrder, id)
 	a.Log = append(a.Log, AdCall{Seq: a.h.ev("mark", "ad.deq", -1, id), Op: "deq", OK: true, Ack: id, Data: string(it.data)})
+	if it.raw != nil {
+		return it.raw, true, id
+	}
 	return it.data, true, id
+}
+
+// PushRaw places an arbitrary stored entry on the adapter without notification (content found at start-up).
+func (a *Adapter) PushRaw(v any) {
+	a.nseq++
+	it := adItem{seq: a.nseq}
+	if b, ok := v.([]byte); ok {
+		it.data = b
+	} else {
+		it.raw = v
+	}
+	a.items = append(a.items, it)
 }
 
 func (a *Adapter) Acknowledge(id string) bool {
